@@ -349,16 +349,24 @@ class Twin:
         res = self._both(copy_and_use)
         return self._record('dedupcp', 'dedupcp', res)
 
-    def write_read(self, do_read=True, detect_rf_use=False):
+    def write_read(self, do_read=True, detect_rf_use=False, remove_duplicates=True):
         with tempfile.TemporaryDirectory(prefix='pvhist') as d:
             fn = os.path.join(d, 's.seq')
             res = self._both(lambda s: s.write(fn, create_signature=False) and None)
             self._record('write', 'touch', res)
             if res[0][0] != 'ok' or not do_read:
                 return
-            res = self._both(lambda s: s.read(fn, detect_rf_use=detect_rf_use))
+            res = self._both(lambda s: s.read(fn, detect_rf_use=detect_rf_use, remove_duplicates=remove_duplicates))
             tok = 'load ' + sm.core_tokens(self.on)
-            self._record('read', tok, res)
+            if not remove_duplicates and res[0][0] == 'ok':
+                # read(remove_duplicates=False) leaves blocks decoded by its first/last scan in the cache, the model's load
+                # starts with an empty one: the cache keys are not compared at this operation; then every block is decoded
+                # on both sides (implementation: get_block, model: touch) and the comparison is exact again
+                self._record('read', tok, res, {'skip_cache': True})
+                res2 = self._both(lambda s: [s.get_block(i) for i in list(s.block_events.keys())] and None)
+                self._record('touch-after-read', 'touch', res2)
+            else:
+                self._record('read', tok, res)
 
     def model_line(self):
         return 'seq.run ' + self.header + ' ' + ' '.join([str(len(self.ops))] + self.ops)
@@ -456,7 +464,7 @@ def compare_with_model(twin, model_line_out):
                 if d:
                     diffs.append({'op': n, 'kind': kind, 'what': 'dedup copy: ' + d})
                     break
-        d = sm.cmp_state(rec['state'], core, cache)
+        d = sm.cmp_state(rec['state'], core, None, check_cache=False) if rec.get('skip_cache') else sm.cmp_state(rec['state'], core, cache)
         if d:
             diffs.append({'op': n, 'kind': kind, 'what': d})
             break
